@@ -80,6 +80,8 @@ def lower_targets(spec, failed=None):
             else:
                 ex = X.extract_function(REPO, t.file, t.locate, t.index, t.count)
             body = ex.body
+            if t.pre_rules:
+                body, _ = X.apply_rules(body, t.pre_rules, what=t.name)
             if t.defers:
                 body = X.lower_defers(body, what=t.name, **t.defers)
             rules = (X.COMMON_RULES if t.common else []) + t.rules
